@@ -382,6 +382,13 @@ def gen_op(ctx, shadow, at=None, ps_choices=None, engine_ports=None):
                     d['steps'] = steps
                 if flow:
                     d['flow'] = flow
+            elif q < 0.37:
+                # a data-only daughter: she lists her processes, and the list is empty (nothing is inherited)
+                d[rng.choice(['processes', 'processes', 'steps'])] = {}
+                if 'steps' in d and rng.random() < 0.5:
+                    d['processes'] = {}
+                if rng.random() < 0.4:
+                    d['topology'] = {}
             if rng.random() < 0.3 and not shared:
                 d['initial_state'] = rng.choice([{}, {'s0': {'x': rng.randrange(9)}}, {'extra': {}}])
             ds.append(d)
@@ -639,6 +646,14 @@ def corpus():
         _u({'agents': {'_divide': {'mother': 'm0', 'daughters': [
             {'key': 'm00', 'processes': {'Q': PD('Q', False, {'g': {'v': {'_default': 1}}})},
              'topology': {'Q': {'g': ('inner',)}}}, {'key': 'm01'}]}}}, ops=['divide']),
+    ]))
+    # division into data-only daughters: an empty `processes` list is a list (nothing is inherited)
+    out.append(_case(procs, topo, {'agents': {'m': {'inner': {'v': 9, 'w': 8}}}}, [
+        _u({'agents': {'_divide': {'mother': 'm', 'daughters': [{'key': 'm0', 'processes': {}},
+                                                                 {'key': 'm1'}]}}}, ops=['divide']),
+        _u({'agents': {'_divide': {'mother': 'm1', 'daughters': [{'key': 'm10', 'processes': {}, 'topology': {}},
+                                                                  {'key': 'm11', 'processes': {}}]}}},
+           ops=['divide']),
     ]))
     # _generate of a nested compartment with a step and flow, ports reaching up
     gen = {'key': 'new', 'processes': {'in': {'GP': PD('GP', False, {'a': {'x': {'_default': 2}},
